@@ -65,8 +65,8 @@ theorem inv_markUpdated {s : Sets α} {a : α → Option Bool} (h : Inv s a) (x 
 
 /-- The loop of the DELETED_PARENT arm. -/
 theorem inv_foldDeleted (L : List α) : ∀ {s : Sets α} {a : α → Option Bool}, Inv s a →
-    Inv (L.foldl (fun s sub => if sub ∉ s.deleted then markDeleted s sub else s) s)
-      (fun p => if p ∈ L then some false else a p) := by
+    Inv (delLoop L s) (fun p => if p ∈ L then some false else a p) := by
+  unfold delLoop
   induction L with
   | nil => intro s a h; simpa using h
   | cons x xs ih =>
@@ -185,7 +185,7 @@ theorem nodup_recordChange (v : View α) (s : Sets α) (e : Event α) (hu : s.up
       · exact ⟨hu, hd⟩
     · exact ⟨hu, hd⟩
   | deletedParent =>
-    simp only
+    simp only [delLoop]
     generalize v.under e.duringBuild e.path = L
     induction L generalizing s with
     | nil => exact ⟨hu, hd⟩
@@ -208,12 +208,12 @@ theorem nodup_recordAll (v : View α) (evs : List (Event α)) : ∀ (s : Sets α
     have h := nodup_recordChange v s e hu hd
     exact ih _ h.1 h.2
 
-/-- The DELETED_PARENT loop on any pair of sets: everything listed ends up in `deleted` and out of
-`updated`, nothing else changes. -/
+/-- The DELETED_PARENT loop on any pair of sets: every listed path ends up in `deleted`, and leaves
+`updated` unless it was in `deleted` already; nothing else changes. -/
 theorem mem_foldDeleted (L : List α) : ∀ (s : Sets α) (p : α),
-    (p ∈ (L.foldl (fun s sub => if sub ∉ s.deleted then markDeleted s sub else s) s).deleted ↔ p ∈ s.deleted ∨ p ∈ L) ∧
-    (p ∈ (L.foldl (fun s sub => if sub ∉ s.deleted then markDeleted s sub else s) s).updated ↔
-      p ∈ s.updated ∧ (p ∈ L → p ∈ s.deleted ∧ ∀ x ∈ L, x ∉ s.deleted → x ≠ p)) := by
+    (p ∈ (delLoop L s).deleted ↔ p ∈ s.deleted ∨ p ∈ L) ∧
+    (p ∈ (delLoop L s).updated ↔ p ∈ s.updated ∧ (p ∈ L → p ∈ s.deleted)) := by
+  unfold delLoop
   induction L with
   | nil => intro s p; simp
   | cons x xs ih =>
@@ -237,24 +237,10 @@ theorem mem_foldDeleted (L : List α) : ∀ (s : Sets α) (p : α),
         · rintro ⟨hu, hr⟩
           refine ⟨hu, ?_⟩
           rintro (rfl | hp)
-          · refine ⟨hx, ?_⟩
-            intro y hy hyd
-            rcases hy with rfl | hy
-            · exact absurd hx hyd
-            · intro hyp
-              subst hyp
-              exact hyd (hr hy).1
-          · obtain ⟨hd, hall⟩ := hr hp
-            refine ⟨hd, ?_⟩
-            intro y hy hyd
-            rcases hy with rfl | hy
-            · exact absurd hx hyd
-            · exact hall y hy hyd
+          · exact hx
+          · exact hr hp
         · rintro ⟨hu, hr⟩
-          refine ⟨hu, ?_⟩
-          intro hp
-          obtain ⟨hd, hall⟩ := hr (Or.inr hp)
-          exact ⟨hd, fun y hy hyd => hall y (Or.inr hy) hyd⟩
+          exact ⟨hu, fun hp => hr (Or.inr hp)⟩
     · simp only [hx, not_false_eq_true, if_true]
       obtain ⟨h1, h2⟩ := ih (markDeleted s x) p
       refine ⟨?_, ?_⟩
@@ -274,14 +260,14 @@ theorem mem_foldDeleted (L : List α) : ∀ (s : Sets α) (p : α),
           refine ⟨hu, ?_⟩
           rintro (rfl | hp)
           · exact absurd rfl hne
-          · obtain ⟨hd, hall⟩ := hr hp
-            rcases hd with rfl | hd
+          · rcases hr hp with rfl | hd
             · exact absurd rfl hne
-            · refine ⟨hd, ?_⟩
-              intro y hy hyd
-              rcases hy with rfl | hy
-              · exact fun h => hne h.symm
-              · exact hall y hy (by rintro (rfl | h) <;> [exact hne.elim ?_; exact hyd h]; sorry)
-        · sorry
+            · exact hd
+        · rintro ⟨hu, hr⟩
+          have hne : p ≠ x := by
+            intro h
+            subst h
+            exact hx (hr (Or.inl rfl))
+          exact ⟨⟨hu, hne⟩, fun hp => Or.inr (hr (Or.inr hp))⟩
 
 end StepupModel.P.Watch
